@@ -564,7 +564,7 @@ def c03(ctx: Ctx) -> None:
     # the adaptors by what they do, not by their names: a one-parameter async generator of the module that yields its
     # parameter ('obj') / the awaited parameter ('aw') exactly once
     adaptor_kind: Dict[str, str] = {}
-    for sc_ in p.unit(FILE).module_scope.children:
+    for sc_ in [c_ for uu in p.units.values() for c_ in uu.module_scope.children]:
         if sc_.kind == 'function' and sc_.is_async and sc_.is_generator and len(sc_.params) == 1:
             ga_ = build(sc_, p)
             ys_ = [n for n in ga_.nodes if n.kind == 'yield']
@@ -982,9 +982,13 @@ def c07(ctx: Ctx) -> None:
             w = find_path(gg, [h], targets, edge_ok=lambda e: not guard_edge(e))
             host = h.meta.get('inlined_from') or gg.scope.qualname
             # the role of a handler is what it guards, wherever a refactoring has put it
-            if gg is G and any(f in r.timed_get for f in feeders):
+            # (the handler that receives the CancelledError edge of the guarded await itself; a handler further out that only
+            # sees what the inner one lets through has the role of the function it is written in)
+            def direct(nodes_) -> bool:
+                return any(e.src in nodes_ and e.label == 'exc' and 'CancelledError' in (e.classes or ()) for e in gg.pred[h.id])
+            if gg is G and direct(r.timed_get):
                 role = 'PROCESS'
-            elif gg is G and any(f in r.callfunc for f in feeders):
+            elif gg is G and direct(r.callfunc):
                 role = 'RUNNER'
             elif gg is r.gload:
                 role = 'LOADER'
@@ -994,23 +998,33 @@ def c07(ctx: Ctx) -> None:
             inst = f'{role} ({host}): except {norm(h.ast.type) if h.ast.type else "(bare)"} around {sorted({norm(x.ast)[:40] for x in feeders})}'
             ctx.check('C07-W9', inst, gg.loc(h), w is None, 're-raises the cancellation',
                       'a CancelledError aimed at the daemon is swallowed here: the `while True` daemon goes on and loop shutdown never finishes',
-                      witness=render(gg, w), construct=construct_key('BUFFER.' + role, 'swallows cancel', '/'.join(sorted(h.meta.get('classes') or ['bare']))))
+                      witness=render(gg, w), construct=construct_key('BUFFER.' + role, 'swallows cancel'))
     for role in ('ROOT', 'PROCESS', 'RUNNER', 'LOADER'):
         if role not in roles_with_offender:
             ctx.holds('C07-W9', f'{role}: no handler catches a cancellation delivered at a suspension point', f'{FILE}:{r.root.lineno}')
     # W10
     dt = r.u.scopes.get('DaemonTask')
     if dt is None:
+        dt = next((uu.scopes['DaemonTask'] for uu in p.units.values() if 'DaemonTask' in uu.scopes and uu.scopes['DaemonTask'].kind == 'class'), None)
+    if dt is None:
         ctx.undecided('C07-W10', 'DaemonTask', f'{FILE}:1', 'class vanished')
     else:
-        bases = [Resolver(r.u.module_scope).path(b) for b in dt.node.bases]
+        bases = [Resolver(dt.unit.module_scope).path(b) for b in dt.node.bases]
         defined = set()
-        for s in ast.walk(dt.node):
-            if isinstance(s, (ast.FunctionDef, ast.AsyncFunctionDef)):
-                defined.add(s.name)
-            if isinstance(s, ast.Assign):
-                defined |= {t.id for t in s.targets if isinstance(t, ast.Name)}
-        bad = defined - {'__del__', '__init__', '__slots__', '__doc__'}
+        def class_level(stmts):
+            for s in stmts:
+                if isinstance(s, (ast.FunctionDef, ast.AsyncFunctionDef)):
+                    defined.add(s.name)
+                elif isinstance(s, ast.Assign):
+                    defined.update(t.id for t in s.targets if isinstance(t, ast.Name))
+                elif isinstance(s, (ast.If, ast.Try, ast.With)):
+                    for fld in ('body', 'orelse', 'finalbody'):
+                        class_level(getattr(s, fld, []) or [])
+                    for h_ in getattr(s, 'handlers', []) or []:
+                        class_level(h_.body)
+        class_level(dt.node.body)
+        # (class metadata - where the class claims to live, its slots, its docstring - overrides no behaviour)
+        bad = defined - {'__del__', '__init__', '__slots__', '__doc__', '__module__', '__qualname__'}
         ctx.check('C07-W10', f'DaemonTask({bases}) defines {sorted(defined)}', f'{FILE}:{dt.lineno}',
                   bases == ['asyncio.Task'] and not bad, 'cancel()/__await__/_step are asyncio.Task\'s own',
                   f'the daemon wrapper overrides {sorted(bad)}', construct=construct_key('DaemonTask', 'overrides', sorted(bad), bases))
